@@ -93,8 +93,9 @@ PROPS.update({
               scans=["clone_field_complete", "no_shared_state"],
               trusted=BOUNDED_TRUSTED + ["clone world: `CloneLaw` (clone / clone_from of every type parameter and of Vec<T> return / leave a value equal to the source) is ASSUMED for the parts and proved for the wrapper; std's Clone carries no usable Verus specification, so the law replaces the `Clone` bound in the impl headers"],
               dropped=["the derived Clone impls (index containers, MirrorRegion, tuple regions, codec regions) are macro output: not under contract", "HuffmanContainer / CodecRegion clone_from (BTreeMap state): bounded tier only", "independence of the two copies after cloning is an ownership fact (scan no_shared_state) plus the twin harnesses, not a postcondition"]),
-    "C14": _p("model_checking", ["regions"], "IntoOwned laws on read items of slice / columns / option / result / nested-slice regions and Huffman Wrapped items, both representations, five prior clone_onto targets.",
-              trusted=BOUNDED_TRUSTED, dropped=["IntoOwned bodies are iterator adapters / std ToOwned calls outside the Verus dialect"]),
+    "C14": _p("model_checking", ["regions", "owned"], "IntoOwned laws on read items of slice / columns / option / result / nested-slice regions and Huffman Wrapped items, both representations, five prior clone_onto targets.",
+              trusted=BOUNDED_TRUSTED + ["owned world: the laws of std's ToOwned (to_owned returns / clone_into leaves an owned form of the value) and Borrow are ASSUMED for every T (world traits of the same names); the blanket `impl IntoOwned for &T` of src/lib.rs is proved against them"],
+              dropped=["IntoOwned bodies of ReadSlice / ReadColumns / tuples are iterator adapters or macro output outside the Verus dialect — bounded tier"]),
     "C15": _p("model_checking", [], "==, partial_cmp, cmp of read items against the owned vectors for all triples of short vectors in every representation; Wrapped raw versus encoded.",
               trusted=BOUNDED_TRUSTED, dropped=["ReadSlice comparisons delegate to std's iterator comparison, which Verus cannot read"]),
     "C16": _p("model_checking", [], "serde_json round trip of 17 region compositions and 3 FlatStacks at an arbitrary point of a short history; original and restored copy driven through the same continuation: same indices, reads, used bytes.",
